@@ -717,6 +717,78 @@ theorem C09_gen_writer_checks_close :
   · intro res
     by_cases hr : res = 0 <;> simp [Gen.C09.bufferedFileClose, Gen.C09.fcloseCall, hr]
 
+/-! ## Round 8: `SolverAppOptionParser::Parse` tied -/
+
+/-- What the model's `.flags` step assumes `Parse` does after `ParseOptions`, as a function of the same arguments as
+the generated `solverAppParse`: a flag other than `--` that ends option processing ends the run (null is returned);
+no stub: usage, null; otherwise the stub is returned and an immediately following `-AMPL` sets the flag and
+`wantsol = 1` (and is consumed). -/
+def appParseSpec (argv : List String) (optIn consumed : Nat) (s : Gen.C09.AppParse) : Option String × Gen.C09.AppParse :=
+  let j := s.i + 1 + consumed
+  if optIn ≠ 0 ∧ optIn ≠ 45 then (none, { s with i := j })
+  else match argv[j]? with
+    | none => (none, { s with i := j, usage := true })
+    | some stub =>
+      if argv[j + 1]? = some "-AMPL" then (some stub, { s with i := j + 1 + 1, ampl := true, wantsol := 1 })
+      else (some stub, { s with i := j + 1 })
+
+/-- **`SolverAppOptionParser::Parse`** (generated from src/solver.cc statement by statement) equals the specification
+for every command line, every return value / advance of `ParseOptions` and every state. -/
+theorem C09_gen_app_parse (argv : List String) (optIn consumed : Nat) (s : Gen.C09.AppParse) :
+    Gen.C09.solverAppParse argv optIn consumed s = appParseSpec argv optIn consumed s := by
+  unfold Gen.C09.solverAppParse appParseSpec
+  by_cases h0 : optIn = 0
+  · subst h0
+    cases h1 : argv[s.i + 1 + consumed]? with
+    | none => simp [h1]
+    | some stub =>
+      by_cases h2 : argv[s.i + 1 + consumed + 1]? = some "-AMPL" <;> simp [h1, h2]
+  · by_cases h45 : optIn = 45
+    · subst h45
+      cases h1 : argv[s.i + 1 + consumed]? with
+      | none => simp [h1]
+      | some stub =>
+        by_cases h2 : argv[s.i + 1 + consumed + 1]? = some "-AMPL" <;> simp [h1, h2]
+    · simp [h0, h45]
+
+/-- **The `.flags` step of the pipeline is `Parse`**: for any command line that realises the scenario (after the
+`consumed` flag arguments comes the stub iff `hasStub`, and `-AMPL` right after it iff `ampl`), with `ParseOptions`
+having processed all flags (`0`) or met `--` (`45`) and left `wantsol = w0`: the step ends the run with `info` iff the
+generated `Parse` returns null, and otherwise continues with exactly the `-AMPL` flag and `wantsol` that `Parse` set.
+(`parseFlags`, the loop of `ParseOptions` over the flag arguments, stays hand-written and sampled.) -/
+theorem C09_flags_step_follows_parse (sc : Scenario) (bs : Behaviours) (st : PState) (w0 : Nat)
+    (argv : List String) (optIn consumed : Nat)
+    (hp : parseFlags sc.flags 0 = .proceed w0) (hopt : optIn = 0 ∨ optIn = 45)
+    (hstub : (argv[1 + consumed]?).isSome = sc.hasStub)
+    (hampl : (argv[1 + consumed + 1]? = some "-AMPL") ↔ sc.ampl = true) :
+    step sc bs .flags st =
+      match Gen.C09.solverAppParse argv optIn consumed ⟨0, false, w0, false⟩ with
+      | (none, _) => .done .info
+      | (some _, s') => .next { st with ampl := s'.ampl, wantsol := s'.wantsol } := by
+  rw [C09_gen_app_parse]
+  have hopt' : ¬ (optIn ≠ 0 ∧ optIn ≠ 45) := by
+    rcases hopt with h | h <;> simp [h]
+  simp only [step, hp, appParseSpec, hopt', if_false, Nat.zero_add]
+  cases h1 : argv[1 + consumed]? with
+  | none =>
+    have : sc.hasStub = false := by rw [← hstub, h1]; rfl
+    simp [this]
+  | some stub =>
+    have hs : sc.hasStub = true := by rw [← hstub, h1]; rfl
+    by_cases ha : sc.ampl = true
+    · have := hampl.2 ha
+      simp [hs, ha, this]
+    · have hn : ¬ (argv[1 + consumed + 1]? = some "-AMPL") := fun h => ha (hampl.1 h)
+      have ha' : sc.ampl = false := by cases h : sc.ampl <;> simp_all
+      simp [hs, ha', hn]
+
+/-- a flag that ends option processing (`-v`, `-?`, `-=`…: `ParseOptions` returns its letter): `Parse` returns null
+whatever follows — the `.stop` arm of `parseFlags` / the `info` outcome -/
+theorem C09_app_parse_stop (argv : List String) (optIn consumed : Nat) (s : Gen.C09.AppParse)
+    (h0 : optIn ≠ 0) (h45 : optIn ≠ 45) :
+    (Gen.C09.solverAppParse argv optIn consumed s).1 = none ∧ (Gen.C09.solverAppParse argv optIn consumed s).2.usage = s.usage := by
+  rw [C09_gen_app_parse]; simp [appParseSpec, h0, h45]
+
 /-! ## Round 5: the driver as a pipeline — the ending is computed, not given
 
 `runP sc bs` (`Pipeline.lean`) folds the driver's real stage sequence over a state (inside `Run`? handler
@@ -1110,6 +1182,13 @@ example := C09_optfile_unreadable_outcome { scBase with opts := [.tok .ok, .optf
   [.tok .ok] [.tok .bad] [.wantsol 8] (by decide) (by decide) (by decide) (by decide) (by decide) (by decide) (by decide) (by decide)
 example := C09_exportonly_run { scBase with justExport := true, opts := [.tok .ok] } (by decide) (by decide) (by decide) (by decide) (by decide) (by decide)
 -- the pipeline: several stages would raise, options contain an unreadable file after the bad token
+-- round 8: instances (recsolver -s stub -AMPL foo=1;  recsolver;  recsolver stub foo=1 -AMPL;  recsolver -v stub)
+example : Gen.C09.solverAppParse ["recsolver", "-s", "stub", "-AMPL", "foo=1"] 0 1 ⟨0, false, 1, false⟩ = (some "stub", ⟨4, true, 1, false⟩) := by decide
+example : Gen.C09.solverAppParse ["recsolver"] 0 0 ⟨0, false, 0, false⟩ = (none, ⟨1, false, 0, true⟩) := by decide
+example : Gen.C09.solverAppParse ["recsolver", "stub", "foo=1", "-AMPL"] 0 0 ⟨0, false, 0, false⟩ = (some "stub", ⟨2, false, 0, false⟩) := by decide
+example : Gen.C09.solverAppParse ["recsolver", "-v", "stub"] 118 0 ⟨0, false, 0, false⟩ = (none, ⟨1, false, 0, false⟩) := by decide
+example := C09_flags_step_follows_parse scBase [] PState.init 0 ["recsolver", "stub", "-AMPL"] 0 0 (by decide) (by decide) (by decide) (by decide)
+
 -- round 7: instances
 example : (Gen.C09.bufferedFileClose ⟨true, true, 0, false, false, false⟩ (-1)) = ⟨false, false, 1, false, true, false⟩ := by decide
 example : (Gen.C09.bufferedFileClose ⟨true, true, 0, false, false, false⟩ 0) = ⟨false, false, 1, false, false, false⟩ := by decide
